@@ -220,7 +220,10 @@ OutcomeChecks(kt, b, o, D, tab, pAcc, pRej, F) ==
            \* C04 speaks about every input the implementation accepts, whatever the specification thinks of it
            Chk("C04", "accepted_input_reencodes_to_itself", o.rest <= Len(b) /\ c.enc = SubSeq(b, 1, Len(b) - o.rest)),
            \* C01: whatever was accepted, the decoded record reports itself as verifying
-           Chk("C01", "accepted_record_reports_itself_verifying", c.verify = <<TRUE>>)>>
+           Chk("C01", "accepted_record_reports_itself_verifying", c.verify = <<TRUE>>),
+           \* C05 speaks about every record obtained with Ok from decoding, whatever the input was
+           Chk("C05", "decoded_record_has_id_v4_verifies_and_fits",
+               IdOf(c.pairs) = <<V_v4>> /\ c.verify = <<TRUE>> /\ Len(c.enc) <= MaxSize)>>
          \o When(D.verdict = "accept",
            <<Chk("C04", "reencode_reproduces_input", c.enc = SubSeq(b, 1, D.consumed)),
              Chk("C04", "fields_match_parse", c.seq = D.seq /\ c.pairs = D.pairs /\ c.sig = D.sig),
